@@ -107,7 +107,16 @@ def check(ctx: Ctx, col: Collector, tier: str) -> None:
 
         # (3) the leading underscores are removed: what follows may start with a digit (`_1`, `_2nd`), which is no identifier
         conv = [o for o in rets if not (isinstance(o.value, Const) or (o.value == Sym("name") and only_underscores(o)))]
-        tested = [o for o in conv if any(re.search(r"\.(isdigit|isidentifier|isalpha|isdecimal|isnumeric)\(|re\.(match|fullmatch)\(", k) for k, _ in o.facts)]
+        def looks_at_first_char(k: str) -> bool:
+            if re.search(r"\.isidentifier\(|re\.(match|fullmatch)\(", k):
+                return True
+            m = re.search(r"\.(isdigit|isalpha|isdecimal|isnumeric)\((.*)\)\s*$", k)
+            if not m:
+                return False
+            arg = m.group(2)
+            # the tested operand is the first character: X[0] or X[:1]
+            return bool(re.search(r"^\[\]\(.*, 0\)$", arg) or re.search(r"^slice\(.*, (None|0), 1\)$", arg))
+        tested = [o for o in conv if any(looks_at_first_char(k) for k, _ in o.facts)]
         key = f"{GHELPER}::{CONV}::SAFE_DS,is_class_name={icn}::digit-after-underscores"
         if conv and len(tested) == len(conv):
             col.ok("C09.CONVERT-SHAPE", key, repo.loc(GHELPER, cfi.node), f"all {len(conv)} converting paths test the first character that is left")
